@@ -731,7 +731,19 @@ impl<const P: u8, const G: i8, const N: usize, const D: usize> Dut for NbDut<P, 
     }
     fn restore_from_json(&mut self, json: &str) -> Result<(), String> {
         let s: Session = parse_session(&self.env, json)?;
-        self.dev = Self::build(&self.env, Some(s));
+        let first = self.env.borrow_mut().restore_settings_first.take();
+        match first {
+            Some((dr, adr)) => {
+                // the application configures the fresh device first and installs the stored session last
+                let mut dev = Self::build(&self.env, None);
+                dev.set_datarate(region::DR::from(dr));
+                dev.set_adr(adr);
+                dev.set_session(s);
+                self.dev = dev;
+                self.env.borrow_mut().bump("probe.restore-settings-before-session");
+            }
+            None => self.dev = Self::build(&self.env, Some(s)),
+        }
         Ok(())
     }
     fn fcnt_down(&mut self) -> Option<Option<u32>> {
